@@ -18,12 +18,15 @@ CHECK = dict(
                 "are systematic (hundreds of thousands of inputs each, one root cause each): they are counted exactly in the counters v_* but only a "
                 "deterministic representative family plus the first 3 per worker process are listed as violation lines."),
     runs=[S("seq-fast", quick=300, thorough=2400, workers=8, case_timeout=120),
-          S("seq-asan", quick=400, thorough=600, workers=8, case_timeout=300, args=["--asan-subset"])],
+          # the sanitizer run is thorough-only: ~30 s start-up per phase in this sandbox, and Hull/Minkowski already run under ASan in C01's program space
+          S("seq-asan", quick=400, thorough=900, workers=8, case_timeout=300, args=["--asan-subset"], tiers=("thorough",))],
     rule=("cases = one library call (Hull of one ordered point sequence / one seed or seed pair / one Minkowski call); distinct = canonical result meshes; "
           "non-trivial = hull inputs of affine rank 3 with >= 5 distinct points (QuickHull's iteration runs), non-empty seed hulls, non-empty Minkowski results. "
           "Admissible samples are farther than max(tolerance, 1e-6) from the surface they are classified against."),
-    bounds=dict(quick="multisets of <= 6 lattice points x 2 orders x 3 frames, <= 5 in the 2^-20 frame (7.1M hulls), 2 x 2^19 slab subsets, 2 x 1728 boxes, 35 seeds, 1225 pairs, 100 Minkowski calls (13^3 grid)",
-                thorough="adds multisets of 7 points (8.5M per frame) and the 0.1-scaled frame (47M hulls in all), 21^3 Minkowski grid"),
+    bounds=dict(quick="multisets of <= 6 points of {0,1,2}^3 x 2 orders x 3 frames (<= 5 in the 2^-20 frame), multisets of 5..6 points of a 12-point sub-lattice x 4 frames, "
+                      "2^19 rotated slab subsets, 2 x 1728 boxes, 35 seeds, 1225 pairs, 100 Minkowski calls on a 13^3 grid: 7.7M library calls",
+                thorough="adds multisets of 7 points (8.5M per frame), the 0.1-scaled frame, the 2^-20 frame at 6 points, the exact slab subsets, a 21^3 Minkowski grid "
+                         "(55M calls), and an ASan/UBSan run of a 0.3M-call subset"),
     assumptions=COMMON_ASSUME + [
         "'within epsilon' is read as max(GetEpsilon(), GetTolerance()) of the result (and of the inputs for Hull of Manifolds)",
         "for rounded (rotated / 0.1-scaled) frames the predicates are evaluated on the integer lattice pre-image and only distances above the tolerance (>= 1e-12, i.e. 10^4 ulp) are reported",
